@@ -316,20 +316,29 @@ Proof.
         repeat (destruct Hin as [Hin|Hin]; [inversion Hin; subst; eauto|]); destruct Hin. }
     destruct Hst as [(t & -> & ->)|(gs & -> & ->)]; cbn [sub_ans].
     + destruct (Z.le_gt_cases c 65535).
-      * left. eapply cmap4_answers_assoc_lemma; eauto. lia.
+      * left. eapply cmap4_answers_assoc_lemma; eauto; lia.
       * right. apply cmap4_map_above. auto.
     + left. eapply cmap12_answers_assoc; eauto.
   - intros Hne. destruct (assoc c (canon input)) as [g|] eqn:Eg; [|congruence].
-    apply assoc_in in Eg. apply canon_in in Eg.
+    apply assoc_in in Eg. apply (proj1 (canon_in _ _)) in Eg.
     destruct (subtable_choice_lemma _ _ _ HV HB) as [S12 S4].
     destruct (Z.le_gt_cases c 65535).
     + destruct o4 as [t|]; [|exfalso; apply (proj2 S4); [exists (c, g); auto | reflexivity]].
       exists 0, 3, (F4 t). split; [unfold records_of; left; reflexivity|]. cbn [sub_ans].
       rewrite (cmap4_answers_assoc_lemma _ _ _ HV HB c) by lia.
-      apply (asc_assoc _ Ha). apply canon_in. auto.
+      apply (proj2 (asc_assoc _ Ha c g)). apply (proj2 (canon_in _ _)). exact Eg.
     + destruct o12 as [gs|]; [|exfalso; apply (proj2 S12); [exists (c, g); auto | reflexivity]].
       exists 0, 4, (F12 gs). split.
       * unfold records_of. destruct o4; cbn; auto.
       * cbn [sub_ans]. rewrite (cmap12_answers_assoc _ _ _ HV HB c Hc).
-        apply (asc_assoc _ Ha). apply canon_in. auto.
+        apply (proj2 (asc_assoc _ Ha c g)). apply (proj2 (canon_in _ _)). exact Eg.
+Qed.
+
+(* ---------- the unchanged builder panics on a valid mapping (finding F-2) ---------- *)
+Theorem format4_build_refuted_lemma : exists input, valid_input input /\ conflict_free input /\ from_mappings input = Panic.
+Proof.
+  exists [(65, 40000)]. split; [|split].
+  - constructor; [|constructor]. unfold valid. cbn. lia.
+  - intros c g1 g2 [H1|[]] [H2|[]]. congruence.
+  - vm_compute. reflexivity.
 Qed.
